@@ -64,6 +64,8 @@ pub struct LifeSrc {
     synth_on_sock: bool,
     /// forget the synthetic token at unregister (as calloop's own sources do with theirs)
     clear_token: bool,
+    /// virtual time before_sleep takes
+    slow: u64,
 }
 
 impl LifeSrc {
@@ -185,6 +187,25 @@ impl EventSource for LifeSrc {
             return Err(calloop::Error::OtherError(Box::new(crate::wrap::Scripted("before_sleep"))));
         }
         let synth = l.bs == 1 && l.plan.pop_front().unwrap_or(false);
+        if self.slow > 0 && l.bs == 1 {
+            // the hook takes its time (other threads' events that fall into it wait for the
+            // poll): the loop has to look at the clock again when it computes how long it may
+            // sleep
+            let now = sim.now_ns();
+            let mut target = now.saturating_add(self.slow);
+            if let Some(e) = st.env.front() {
+                target = target.min(e.at.max(now));
+            }
+            if target > now {
+                sim.clock.set(target);
+                st.hook_time += target - now;
+                drop(st);
+                sim.probe("slow_before_sleep");
+                st = sim.st.borrow_mut();
+            }
+        }
+        let Some(s) = st.srcs.get_mut(&self.id) else { return Ok(None) };
+        let K::Life(l) = &mut s.k else { return Ok(None) };
         if synth {
             let tok = if self.synth_on_sock { self.sock_token } else { self.synth_token };
             if let Some(t) = tok {
@@ -216,7 +237,7 @@ impl EventSource for LifeSrc {
 }
 
 #[allow(clippy::too_many_arguments)]
-pub fn insert_lifecycle(sim: &Sim, id: Id, with_ping: bool, synth: &[bool], script: &Script, two: bool, fail_step2: bool, keep_rejected: bool, sock: bool, synth_on_sock: bool, clear_token: bool) {
+pub fn insert_lifecycle(sim: &Sim, id: Id, with_ping: bool, synth: &[bool], script: &Script, two: bool, fail_step2: bool, keep_rejected: bool, sock: bool, synth_on_sock: bool, clear_token: bool, slow: u64) {
     let Some(h) = sim.st.borrow().handle.clone() else { return };
     if sim.st.borrow().srcs.contains_key(&id) {
         return;
@@ -273,7 +294,7 @@ pub fn insert_lifecycle(sim: &Sim, id: Id, with_ping: bool, synth: &[bool], scri
         sock_events: 0,
     });
     let src = crate::ops::new_src(id, script, k, sh.clone(), cbd);
-    let source = LifeSrc { id, ping: psrc, ping2: psrc2, fail_step2, synth_token: None, sock: sock_src, sock_token: None, sock_key, synth_on_sock, clear_token };
+    let source = LifeSrc { id, ping: psrc, ping2: psrc2, fail_step2, synth_token: None, sock: sock_src, sock_token: None, sock_key, synth_on_sock, clear_token, slow };
     let rejected: Rc<std::cell::RefCell<Option<Box<dyn std::any::Any>>>> = Rc::new(std::cell::RefCell::new(None));
     let rej = rejected.clone();
     let keep_rejected = keep_rejected && two;
